@@ -42,15 +42,15 @@ from runner import Exploration, Finding
 
 SPEC = {
     "prop": "C20",
-    "lean_targets": ["InfernoVerif.Props.C20", "InfernoVerif.Props.C20Glue"],
-    "translate": ["Interpolation", "Extrapolation"],
-    "prop_files": ["InfernoVerif/Props/C20.lean", "InfernoVerif/Props/C20Glue.lean"],
+    "lean_targets": ["InfernoVerif.Props.C20", "InfernoVerif.Props.C20Glue", "InfernoVerif.Props.C20GlueDist", "InfernoVerif.Gen.Dispatch"],
+    "translate": ["Interpolation", "Extrapolation", "Distributions"],
+    "prop_files": ["InfernoVerif/Props/C20.lean", "InfernoVerif/Props/C20Glue.lean", "InfernoVerif/Props/C20GlueDist.lean"],
     "lemma_files": ["InfernoVerif/Lemmas/Dist.lean", "InfernoVerif/Lemmas/Isi.lean", "InfernoVerif/Lemmas/VP.lean"],
     "model_files": ["InfernoVerif/Model/Interp.lean", "InfernoVerif/Model/InterpR.lean",
                     "InfernoVerif/Model/Dist.lean", "InfernoVerif/Model/DistR.lean",
                     "InfernoVerif/Model/Isi.lean", "InfernoVerif/Model/VP.lean"],
     "driver": "drivers/C20.lean",
-    "driver_targets": ["InfernoVerif.Model.Interp", "InfernoVerif.Model.Dist", "InfernoVerif.Model.Isi", "InfernoVerif.Model.VP"],
+    "driver_targets": ["InfernoVerif.Model.Interp", "InfernoVerif.Model.Dist", "InfernoVerif.Model.Isi", "InfernoVerif.Model.VP", "InfernoVerif.Gen.Dispatch"],
     "assumptions": [
         "interp/extrap: the hand-written ℝ copies are PROVED equal (Props/C20Glue.lean) to the definitions regenerated from /repo's "
         "source by the translator on every run; distribution formulas are hand transcriptions: the Float copy is tied to the "
@@ -905,6 +905,8 @@ def explore(ctx) -> Exploration:
     thorough = ctx.tier == "thorough" or ctx.intensify
     C = Collector()
     check_parallel(fs, ex)
+    import transval
+    transval.validate(ctx, ["Distributions"], ex, per_fn=40 if not thorough else 200)   # generated method bodies vs the compiled source
     gen_kernels(ctx, C, fs, ex, thorough)
     gen_dist_differential(ctx, C, fs, ex, thorough)
     gen_isi(ctx, C, fs, ex, thorough)
